@@ -51,12 +51,31 @@ Theorem C09_nil_argument_gives_nil : forall e zf U pe fuel tn tp recv,
 Proof. exact eval_from_nil. Qed.
 Print Assumptions C09_nil_argument_gives_nil.
 
-(* ---- FromX first resets its receiver (`*s = S{}`; a nil receiver is replaced
-   by new(S)): the result never depends on the receiver's previous content *)
-Theorem C09_receiver_irrelevant : forall e zf U pe fuel tn recv recv' arg,
+(* ---- FromX first resets its receiver (`*s = S{}`, or `*s = *NewS(...)`): the
+   result never depends on the receiver's previous CONTENT ... *)
+Theorem C09_receiver_content_irrelevant : forall e zf U pe fuel tn recv recv' arg,
+  (recv = VNil <-> recv' = VNil) ->
   eval_from e zf U pe fuel tn recv arg = eval_from e zf U pe fuel tn recv' arg.
 Proof. exact eval_from_receiver. Qed.
+Print Assumptions C09_receiver_content_irrelevant.
+
+(* ... and for a source type without constructor (every plain struct; the class of
+   C09_no_panic_from) a nil receiver behaves like any other *)
+Theorem C09_receiver_irrelevant : forall e zf U pe fuel tn tp recv recv' arg,
+  find_plans pe tn = Some tp -> pl_ctor (tp_from tp) = None ->
+  eval_from e zf U pe fuel tn recv arg = eval_from e zf U pe fuel tn recv' arg.
+Proof. exact eval_from_receiver_plain. Qed.
 Print Assumptions C09_receiver_irrelevant.
+
+(* With a constructor whose argument goes through a mapper method, FromX on a NIL
+   receiver panics: `s.F(x)` is evaluated before `s` is replaced, and selecting the
+   method through the embedded Mapper value dereferences s.  Open finding
+   K_map_ctor_func_nil_receiver (found by the C15 comparison; replayed every run). *)
+Theorem C09_refuted_K_map_ctor_func_nil_receiver :
+  run_from ex5 VNil (VPtr ex5_d) = Panic
+  /\ (exists s, run_from ex5 (VPtr ex5_dirty) (VPtr ex5_d) = Ok (VPtr s)).
+Proof. exact ex5_nil_receiver. Qed.
+Print Assumptions C09_refuted_K_map_ctor_func_nil_receiver.
 
 (* ---- the building blocks: a path operation panics only strictly below a nil
    value, and a write changes the nil-status of no position outside its path *)
